@@ -195,4 +195,7 @@ def write_evidence(prop_id, spec, ctx, new, reported_known, tier, seed, wall, pr
                        'replay': 'cd /verif && ./check %s --tier %s   (static finding: re-running the check on the same tree reproduces it)' % (prop_id, tier)},
                       f, indent=1, default=str)
         return path, vp
+    stale = os.path.join(ev_dir, '%s.violation.json' % prop_id)
+    if os.path.exists(stale):
+        os.remove(stale)
     return path, None
